@@ -15,18 +15,26 @@ func MaskedReduce(t *Dense, retType Dtype, fn maskedReduceFn, axis ...int) inter
 	// create object to be used for slicing
 	slices := make([]Slice, t.Dims())
 
-	// calculate shape of tensor to be returned
-	slices[ax] = makeRS(0, 0)
-	tt, _ := t.Slice(slices...)
-	ts := tt.(*Dense)
-	retVal := NewDense(retType, ts.shape) //retVal is array to be returned
+	// calculate shape of tensor to be returned: the shape of t without the axis
+	retShape := make(Shape, 0, t.Dims()-1)
+	for d, s := range t.shape {
+		if d != ax {
+			retShape = append(retShape, s)
+		}
+	}
+	retVal := NewDense(retType, retShape) //retVal is array to be returned
 
 	it := NewIterator(retVal.Info())
 
 	// iterate through retVal
 	slices[ax] = makeRS(0, t.shape[ax])
-	for _, err := it.Next(); err == nil; _, err = it.Next() {
-		coord := it.Coord()
+	coord := make([]int, len(retShape))
+	for {
+		// Coord() holds the coordinates of the element that Next() returns, until Next() is called
+		copy(coord, it.Coord())
+		if _, err := it.Next(); err != nil {
+			break
+		}
 		k := 0
 		for d := range slices {
 			if d != ax {
@@ -36,8 +44,8 @@ func MaskedReduce(t *Dense, retType Dtype, fn maskedReduceFn, axis ...int) inter
 				slices[d] = nil
 			}
 		}
-		tt, _ = t.Slice(slices...)
-		ts = tt.(*Dense)
+		tt, _ := t.Slice(slices...)
+		ts := tt.(*Dense)
 		retVal.SetAt(fn(ts), coord...)
 
 	}
